@@ -111,6 +111,15 @@ def fam_evolve(orders=3):
         wo = StructDef('EvWOut%d' % n, [Field(1, 'default', ('list', ('struct', wi, n % 3 == 0))), Field(2, 'default', ('map', S('i16'), ('struct', wi, True)))])
         to = StructDef('EvTOut%d' % n, [Field(1, 'default', ('list', ('struct', ti, n % 3 == 0))), Field(2, 'default', ('map', S('i16'), ('struct', ti, True)))])
         out.append(pair(wo, to, 2, hop=(n % 2 == 0)))
+    # the same named int64 Go type as an enum on one side and as a plain i64 on the other (either registration order):
+    # the reader's wire types are the ones ITS tags declare, whatever another struct said about the same Go type
+    en, pl = S('enum'), S('i64n')
+    for n, (a, b) in enumerate(((en, pl), (pl, en))):
+        we = StructDef('EvEnW%d' % n, [Field(1, 'default', a), Field(2, 'default', ('list', a)), Field(3, 'default', ('map', S('i8'), a)), Field(4, 'default', S('i16'))])
+        te = StructDef('EvEnT%d' % n, [Field(1, 'default', b), Field(2, 'default', ('list', b)), Field(3, 'default', ('map', S('i8'), b)), Field(4, 'default', S('i16'))], has_unknown=(n == 0))
+        ts = StructDef('EvEnS%d' % n, [Field(1, 'default', b), Field(2, 'default', ('list', b)), Field(3, 'default', ('map', S('i8'), b)), Field(4, 'default', S('i16'))])
+        out.append(pair(we, te, 1))
+        out.append(pair(ts, ts, 1))   # registered after a struct using the other flavour? no: on its own (control)
     return out
 
 def fam_required():
@@ -125,6 +134,11 @@ def fam_required():
     ww = StructDef('RqNestW', [Field(1, 'default', ('list', ('struct', wi, True))), Field(2, 'default', ('map', S('i8'), ('struct', wi, True))), Field(3, 'optional', ('struct', wi, True))])
     tt = StructDef('RqNestT', [Field(1, 'default', ('list', ('struct', ti, True))), Field(2, 'default', ('map', S('i8'), ('struct', ti, False))), Field(3, 'optional', ('struct', ti, True))])
     out.append(pair(ww, tt, 2, reach=['end', 'ok', 'missing'], dup=True))
+    # required fields inside struct-typed map KEYS (and keys next to values that have them too): an error raised while
+    # decoding a key must surface like one raised in a value
+    wk = StructDef('RqKeyW', [Field(1, 'default', ('map', ('struct', wi, True), S('string'))), Field(2, 'default', ('map', ('struct', wi, True), ('struct', wi, True)))])
+    tk = StructDef('RqKeyT', [Field(1, 'default', ('map', ('struct', ti, True), S('string'))), Field(2, 'default', ('map', ('struct', ti, True), ('struct', ti, True)))])
+    out.append(pair(wk, tk, 1, reach=['end', 'ok', 'missing']))
     # an outer struct lacking a required field while a nested struct (with required fields of its own) carries the same id
     for n, mk in enumerate([lambda w, t: (('struct', w, True), ('struct', t, True)),
                             lambda w, t: (('list', ('struct', w, True)), ('list', ('struct', t, False))),
@@ -301,6 +315,13 @@ def fam_hist():
         lt = StructDef('HsLT%d' % n, [Field(1, 'default', ('list', ('struct', tv, True)))])
         out.append({'p': tv, 'w': wv, 't': tv, 'params': ps, 'reach': ['end', 'ok', 'missing']})
         out.append({'w': lw, 't': lt, 'kinds': ['decmsg'], 'params': {'decmsg': [{'orders': 1, 'L': 2}]}, 'reach': ['end', 'ok', 'missing']})
+    # caches keyed by Go type: a predecessor that uses the named int64 type as an enum, then types using it as plain i64
+    en, pl = S('enum'), S('i64n')
+    for n, (a, b) in enumerate(((en, pl), (pl, en))):
+        hp = StructDef('HsEnP%d' % n, [Field(1, 'default', a), Field(2, 'default', ('list', a))])
+        hw = StructDef('HsEnW%d' % n, [Field(1, 'default', b), Field(2, 'default', ('list', b)), Field(3, 'default', S('i8'))])
+        ht = StructDef('HsEnT%d' % n, [Field(1, 'default', b), Field(2, 'default', ('list', b))])
+        out.append({'p': hp, 'w': hw, 't': ht, 'params': ps, 'reach': ['end']})
     return out
 
 def fam_twin():
@@ -390,4 +411,74 @@ def fam_spelling():
     out.append({'sd': sd, 'kinds': ['codec'], 'params': sm})
     return out
 
-FAMILIES = {'spelling': fam_spelling, 'mutmsg': fam_mutmsg, 'mutmsg_full': lambda: fam_mutmsg(True), 'twin': fam_twin, 'hist': fam_hist, 'threshold': fam_threshold, 'threshold_full': lambda: fam_threshold(True), 'dec2': fam_dec2, 'default': fam_default, 'nocopy': fam_nocopy, 'unknown': fam_unknown, 'ids': fam_ids, 'nest': fam_nest, 'evolve': fam_evolve, 'evolve_full': lambda: fam_evolve(6), 'required': fam_required, 'bytes8': lambda: fam_bytes(8), 'bytes12': lambda: fam_bytes(12), 'scalar': fam_scalar, 'list': fam_list, 'map': fam_map}
+def fam_mix(n_types=12, seed=20260923):
+    """Pseudo-random (fixed seed) struct types that combine the features the other families isolate: every field kind x
+    requiredness x pointer form x declared default x nocopy x holder x nesting, so that cross-feature interactions are
+    instantiated. Each type runs through the codec core and, as a writer, against an evolved reader of itself."""
+    import random
+    rng = random.Random(seed)
+    scal = ['bool', 'i8', 'i16', 'i32', 'i64', 'double', 'enum', 'string', 'binary']
+    keyk = ['bool', 'i8', 'i16', 'i32', 'i64', 'double', 'enum', 'string']
+    inner = [LEAF, LEAFD]
+
+    def rtype(depth, pool):
+        r = rng.random()
+        if depth >= 2 or r < 0.45:
+            return S(rng.choice(scal))
+        if r < 0.60 and pool:
+            return ('struct', rng.choice(pool), rng.random() < 0.6)
+        if r < 0.80:
+            return (rng.choice(['list', 'set']), rtype(depth + 1, pool))
+        k = S(rng.choice(keyk)) if (rng.random() < 0.9 or not pool) else ('struct', rng.choice(pool), True)
+        return ('map', k, rtype(depth + 1, pool))
+
+    def rfield(fid, pool, allow_required, want_defaults):
+        t = rtype(0, pool)
+        k = t[0]
+        req = rng.choice(['default', 'default', 'optional', 'optional', 'required'] if allow_required else ['default', 'optional', 'optional'])
+        kw = {}
+        if k in scal:
+            if req == 'optional' and rng.random() < 0.5:
+                kw['ptr'] = True
+            if k in ('string', 'binary') and rng.random() < 0.3 and not (k == 'binary' and kw.get('ptr')):
+                kw['nocopy'] = True
+            if want_defaults and not kw.get('ptr') and not kw.get('nocopy') and rng.random() < 0.6:
+                kw['default'] = DEFAULT_LIT[k]
+        if k == 'struct' and req == 'required':
+            req = 'default'
+        return Field(fid, req, t, **kw)
+
+    def rstruct(name, pool, nf, allow_required):
+        ids = rng.sample([1, 2, 3, 4, 5, 6, 7, 8, 9, 10, 11, 12, 63, 64, 65, 127, 128, 255, 256, 300, 1000, 32767], nf)
+        want_defaults = rng.random() < 0.4
+        fs = [rfield(i, pool, allow_required, want_defaults) for i in ids]
+        rng.shuffle(fs)
+        return StructDef(name, fs, has_init=want_defaults, has_unknown=rng.random() < 0.4)
+
+    for k in range(4):
+        inner.append(rstruct('MxI%d' % k, [LEAF, LEAFD], rng.randint(2, 3), False))
+    out = []
+    sm = {'codec': [{'S': 1, 'L': 1, 'M': 1, 'D': 1}]}
+    for k in range(n_types):
+        w = rstruct('Mx%d' % k, inner, rng.randint(3, 5), True)
+        out.append({'sd': w, 'kinds': ['codec'], 'params': sm})
+        # evolved reader: fields kept / dropped / retyped (another kind) / added, holder or not
+        fs = []
+        for f in w.fields:
+            r = rng.random()
+            if r < 0.6:
+                fs.append(Field(f.id, f.req, f.typ, ptr=f.ptr, nocopy=f.nocopy, default=f.default))
+            elif r < 0.8:
+                nt = rtype(1, inner)
+                if nt[0] in scal or nt[0] != 'struct':
+                    fs.append(Field(f.id, 'default' if f.req == 'required' else f.req, nt))
+        used = {f.id for f in w.fields}
+        for i in rng.sample([x for x in (13, 14, 15, 66, 129, 301) if x not in used], rng.randint(0, 2)):
+            fs.append(rfield(i, inner, True, False))
+        t = StructDef('MxT%d' % k, fs, has_init=any(f.default is not None for f in fs), has_unknown=rng.random() < 0.5)
+        pp = pair(w, t, 2, hop=t.has_unknown, reach=['end'])
+        pp['params'] = {'decmsg': [{'orders': 2, 'plain': 1}]}
+        out.append(pp)
+    return out
+
+FAMILIES = {'mix': fam_mix, 'mix_full': lambda: fam_mix(30), 'spelling': fam_spelling, 'mutmsg': fam_mutmsg, 'mutmsg_full': lambda: fam_mutmsg(True), 'twin': fam_twin, 'hist': fam_hist, 'threshold': fam_threshold, 'threshold_full': lambda: fam_threshold(True), 'dec2': fam_dec2, 'default': fam_default, 'nocopy': fam_nocopy, 'unknown': fam_unknown, 'ids': fam_ids, 'nest': fam_nest, 'evolve': fam_evolve, 'evolve_full': lambda: fam_evolve(6), 'required': fam_required, 'bytes8': lambda: fam_bytes(8), 'bytes12': lambda: fam_bytes(12), 'scalar': fam_scalar, 'list': fam_list, 'map': fam_map}
